@@ -11,6 +11,7 @@ import Driver.C13
 import Driver.C05
 import Driver.C07
 import Driver.Provider
+import Driver.C12
 open Lean Driver
 
 def handlers : List (String × Handler) := [
@@ -26,7 +27,8 @@ def handlers : List (String × Handler) := [
   ("C05", Driver.C05.handle),
   ("C07", Driver.C07.handle),
   ("C06", Driver.Provider.handle),
-  ("C09", Driver.Provider.handle)
+  ("C09", Driver.Provider.handle),
+  ("C12", Driver.C12.handle)
 ]
 
 def processLine (line : String) : String :=
